@@ -379,23 +379,28 @@ def small_cfgs(tier):
         for mode in "ef":
             for n in (1, 2, 3):
                 for nrecv in (1, 2, 3):
-                    if n == 3 and nrecv == 3:
-                        continue
                     fl = ["r", "f", "m"][:nrecv] if mode == "e" else ["f", "r", "m"][:nrecv]
                     base = [("S", mode, n, False)] + [("R", f, False) for f in fl]
                     out.append((buf, base + [("C",)]))
                     out.append((buf, [("S", mode, n, True)] + base[1:]))
-                    if n <= 2 and nrecv <= 2:
+                    if n + nrecv <= 5:
                         out.append((buf, base + [("C",), ("X", 1)]))
                         out.append((buf, [("S", mode, n, False), ("R", fl[0], True)] + base[2:] + [("C",)]))
+                    if n <= 2 and nrecv == 2:
+                        out.append((buf, base + [("C",), ("X", 1), ("X", 2)]))
+                        out.append((buf, [("S", mode, n, False), ("R", fl[0], True), ("R", fl[1], False), ("C",), ("X", 1)]))
+                        out.append((buf, base + [("C",), ("X", 0)]))
         # two senders
-        for n1, n2 in ((1, 1), (2, 1)):
-            for nrecv in (1, 2):
-                base = [("S", "e", n1, False), ("S", "f", n2, False)] + [("R", f, False) for f in ["r", "f"][:nrecv]]
+        for n1, n2 in ((1, 1), (2, 1), (2, 2)):
+            for nrecv in (1, 2, 3):
+                if n1 + n2 + nrecv > 5:
+                    continue
+                base = [("S", "e", n1, False), ("S", "f", n2, False)] + [("R", f, False) for f in ["r", "f", "m"][:nrecv]]
                 out.append((buf, base + [("C",)]))
-                if n1 == 1:
-                    out.append((buf, [("S", "e", n1, True), ("S", "f", n2, False)] + base[2:]))
+                out.append((buf, [("S", "e", n1, True), ("S", "f", n2, False)] + base[2:]))
+                if n1 + n2 + nrecv <= 4:
                     out.append((buf, base + [("C",), ("X", 2)]))
+                    out.append((buf, [base[0], base[1], ("R", "r", True)] + base[3:] + [("C",)]))
     return out
 
 
